@@ -451,6 +451,11 @@ def _check_mutation(args):
 # ---- vocabulary fuzz ----------------------------------------------------------------------------------------------------------------
 def fuzz_form(rng):
     from pyxform.question_type_dictionary import QUESTION_TYPE_DICT
+    if rng.random() < 0.04:
+        # a well-formed loop over a list whose sheet has columns named like the fields of the group built for each choice
+        cols = rng.sample(["type", "bind", "control", "children", "flat", "parameters", "media", "hint", "default", "relevant", "trigger", "x"], rng.randint(1, 3))
+        return {"survey": [{"type": "begin loop over things", "name": "l", "label": "L"}, {"type": "text", "name": "q", "label": "Q %(label)s"}, {"type": "end loop"}],
+                "choices": [{"list_name": "things", "name": n, "label": n.upper(), **{c: rng.choice(["x", "group", "yes"]) for c in cols}} for n in ("car", "bike")]}
     types = list(QUESTION_TYPE_DICT) + ["select_one l", "select_multiple l", "select_one_external l", "select_one_from_file f.csv", "select_multiple_from_file f.xml",
         "rank l", "select_one ${q}", "select_multiple ${q}", "select_one l or_other", "select_one_from_file f.csv or_other", "select_one ${q} or_other",
         "select_one_external l or_other", "select_multiple l or other", "begin group", "end group", "begin repeat", "end repeat", "begin loop over l",
@@ -503,6 +508,11 @@ def fuzz_form(rng):
         form["osm"] = [{"list_name": rng.choice(["l", "zz"]), "name": "k", "label": "K"}]
     if rng.random() < 0.5:
         rich_sheets(rng, form)
+    if any(r.get("type", "").startswith("begin loop over") for r in form["survey"]) and form.get("choices") and rng.random() < 0.6:
+        # the list a loop runs over has columns named like the fields of a group
+        col = rng.choice(["type", "name", "label", "bind", "control", "children", "flat", "parameters"])
+        for r in form["choices"]:
+            r.setdefault(col, rng.choice(["x", "group", "text"]))
     if rng.random() < 0.12:
         # a structural column written with a language or sub-key part: type::en, list_name::x, name:fr ...
         sh = rng.choice(sorted(form))
@@ -519,7 +529,7 @@ FZ_SETTINGS = {"form_title": ["T", "${q}", "<b>"], "form_id": ["f", "a b", "1a"]
                "namespaces": ['a="http://x"', "a=b", "a", '="x"', 'a="http://x" a="http://y"', 'a:b="x"', '1a="http://x"', 'xmlns="http://x"'],
                "style": ["pages", "theme-grid x"], "instance_name": ["concat('a',${q})", "${nope}", "'x'"], "instance_id": ["uid", "x y"], "instance_xmlns": ["http://x", "a b"],
                "omit_instanceID": ["yes", "no", "x"], "allow_choice_duplicates": ["yes", "bob"], "name": ["data", "1a", "a b", "meta", "a:b:c", "a:", ":a", "a::b", "-x", "2x"], "sms_keyword": ["k"], "attribute::x": ["v"],
-               "attribute::a b": ["v"], "attribute::a:b": ["v"], "form_title::en": ["T"], "attribute": ["v"], "instance::foo": ["bar"], "entity_features": ["x"], "version::x": ["1"], "clean_text_values": ["no", "yes"], "flat": ["yes"], "id_string": ["x"], "title": ["t"]}
+               "attribute::a b": ["v"], "attribute::a:b": ["v"], "form_title::en": ["T"], "clean_text_values::en": ["yes"], "add_none_option::x": ["yes"], "default_language::x": ["fr"], "id_string::x": ["i"], "sms_keyword::x": ["k"], "attribute": ["v"], "instance::foo": ["bar"], "entity_features": ["x"], "version::x": ["1"], "clean_text_values": ["no", "yes"], "flat": ["yes"], "id_string": ["x"], "title": ["t"]}
 FZ_CHOICE_COLS = ["media", "fields", "bind", "control", "type", "parent", "hint", "default", "label", "label::en", "label::fr", "image", "media::image", "media::image::en", "audio", "video", "big-image", "media::big-image::fr", "cf", "x y", "1a", "name", "value",
                   "list name", "list_name", "sms_option", "geometry", "label::", "::en", "media::", "jr", "a:b"]
 FZ_ENT_COLS = ["dataset", "list_name", "label", "entity_id", "create_if", "update_if", "repeat", "x", "dataset ", "Dataset", "name", "type", "parameters"]
